@@ -62,7 +62,7 @@ def run(module, cfg=None, env=None, workers=16, timeout=900, extra=(), coverage=
     """Run TLC on spec/<module>.tla with spec/<cfg>.  env: dict of IOEnv variables."""
     cfg = cfg or module + ".cfg"
     meta = tempfile.mkdtemp(prefix="tlcmeta_")
-    cmd = ["java", "-XX:+UseParallelGC", "-Xmx6g", "-cp", JAR, "tlc2.TLC",
+    cmd = ["java", "-XX:+UseParallelGC", "-Xmx6g", "-Xss128m", "-cp", JAR, "tlc2.TLC",
            "-workers", str(workers), "-metadir", meta, "-noGenerateSpecTE", "-config", cfg]
     if not deadlock:
         cmd.append("-deadlock")
